@@ -138,8 +138,9 @@ def get_exponentiated_qubit_operator_circuit(qubit_op, time=1., variational=Fals
                 if isinstance(control, int) or len(control) == 1:
                     exp_pauli_word_gates += [Gate("PHASE", target=control, parameter=-np.real(coef), is_variational=variational)]
                 else:
-                    exp_pauli_word_gates += [Gate("CPHASE", target=0, control=control, parameter=-2*np.real(coef), is_variational=variational)]
-                    exp_pauli_word_gates += [Gate("CRZ", target=0, control=control, parameter=2*np.real(coef), is_variational=variational)]
+                    # A phase on the all-ones branch of the controls: PHASE on the last control, controlled by the others
+                    exp_pauli_word_gates += [Gate("CPHASE", target=control[-1], control=list(control[:-1]), parameter=-np.real(coef),
+                                                  is_variational=variational)]
 
     return_value = (Circuit(exp_pauli_word_gates), phase) if return_phase else Circuit(exp_pauli_word_gates)
     return return_value
